@@ -210,12 +210,21 @@ where
     } else if let Some(buf) = src.get(..BAM_MAGIC_NUMBER.len()) {
         if buf == BAM_MAGIC_NUMBER {
             return Ok(Format::Bam);
-        } else if buf == CRAM_MAGIC_NUMBER {
+        } else if buf == CRAM_MAGIC_NUMBER && !is_sam_read_name_prefix(src) {
             return Ok(Format::Cram);
         }
     }
 
     Ok(Format::Sam)
+}
+
+// The CRAM magic number is followed by the format major and minor version numbers, which are
+// never printable characters. A headerless SAM can start with a read name like "CRAM0".
+fn is_sam_read_name_prefix(src: &[u8]) -> bool {
+    const CRAM_MAGIC_NUMBER_LEN: usize = 4;
+
+    src.get(CRAM_MAGIC_NUMBER_LEN)
+        .is_some_and(|b| b.is_ascii_graphic() || *b == b'\t')
 }
 
 #[cfg(test)]
